@@ -349,6 +349,23 @@ func main() {
 	logrus.StandardLogger().ExitFunc = func(int) { panic(vrt.AbortSentinel{Msg: "logrus.Fatal"}) }
 	res := common.NewResult("rr")
 	if *common.Replay != "" {
+		var cf struct {
+			Conc    *concCase `json:"conc"`
+			Choices []int     `json:"choices"`
+		}
+		common.ReadReplay(&cf)
+		if cf.Conc != nil {
+			x := vrt.Replay(cf.Choices, nil, concBody(cf.Conc))
+			for _, e := range x.Events {
+				fmt.Println("  ", e)
+			}
+			if k, d := judgeConc(cf.Conc, x); k != "" {
+				fmt.Println("oracle:", k, d)
+				fmt.Printf("VIOLATION property=C19 replay=%s\n", *common.Replay)
+				os.Exit(1)
+			}
+			return
+		}
 		var rf replayFile
 		common.ReadReplay(&rf)
 		x := vrt.Replay(rf.Choices, nil, body(&rf.Sc))
